@@ -268,13 +268,21 @@ enum PA {
 }
 
 impl<'a> Ev<'a> {
+    /// (start of the first child, end of the last child); a node deriving nothing sits at the
+    /// start of the next input token (end of input: end of the last token, else default)
     fn span(&self, t: &Tree, at: usize) -> (usize, usize) {
-        let (a, b) = (at, at + t.ntoks());
-        if a == b {
-            let p = empty_pos(a, self.ntoks);
-            (p, p)
-        } else {
-            (10 * a + 3, 10 * (b - 1) + 7)
+        match t {
+            Tree::Tok(..) => (10 * at + 3, 10 * at + 7),
+            Tree::Node(_, _, children) => {
+                if t.ntoks() == 0 {
+                    let p = empty_pos(at, self.ntoks);
+                    return (p, p);
+                }
+                let first = self.span(&children[0], at).0;
+                let before_last: usize = children[..children.len() - 1].iter().map(|c| c.ntoks()).sum();
+                let last = self.span(&children[children.len() - 1], at + before_last).1;
+                (first, last)
+            }
         }
     }
 
